@@ -489,6 +489,12 @@ class StmtMixin:
     def s_With(self, node, st):
         # supported: qcore.override(obj, attr, value); repo @contextmanager kernels with a contract
         if len(node.items) != 1:
+            # several context managers: supported when each is declared transparent by the contract
+            texts = [ast.unparse(i.context_expr) for i in node.items]
+            if all(any(t.startswith(p) for p in getattr(self.contract, "transparent_with", [])) for t in texts):
+                for t in texts:
+                    self.collector.assumptions.add(f"{self.kernel.qualname}: `with {t[:50]}` treated as transparent")
+                return self.exec_block(node.body, st)
             raise Unsupported("multi-item with")
         item = node.items[0]
         ce = item.context_expr
